@@ -355,9 +355,11 @@ class BuildTree(Contract):
 
     def env(self, vc):
         self._rs = []
-        e = base_env(self._rs)
-        e['_build_tree_nuts'] = Stub('_build_tree_nuts', build_tree_spec(variant=lambda: z3.Int('depth')), checked_by='C09/_build_tree_nuts')
-        return e
+        return base_env(self._rs)
+
+    def env_post(self, vc):
+        # the recursive calls see the function's own contract (the engine re-binds the name after the definition)
+        return {'_build_tree_nuts': Stub('_build_tree_nuts', build_tree_spec(variant=lambda: z3.Int('depth')), checked_by='C09/_build_tree_nuts')}
 
     def setup(self, vc):
         depth = z3.Int('depth')
@@ -409,12 +411,13 @@ def _row_view(smp, i):
 class Nuts(Contract):
     target = 'elfi/methods/mcmc.py::nuts'
     prop = 'C09'
-    fin = 3
+    fin = 2
     max_paths = 6000
 
-    def __init__(self, mode):
+    def __init__(self, mode, adapt):
         self.mode = mode            # 'stepsize-given' | 'stepsize-search'
-        self.label = mode
+        self.adapt = adapt          # 'n_adapt-default' (None -> n_iter // 2) | 'n_adapt-given'
+        self.label = mode + ',' + adapt
 
     def env(self, vc):
         self._rs = []
@@ -427,7 +430,7 @@ class Nuts(Contract):
         vc.fin_bounds.extend([DIM, n_iter, n_adapt, max_depth])
         p0 = fresh_vec('params0')
         s = NS(n_iter=n_iter, n_adapt_arg=n_adapt, max_depth=max_depth, retry=retry, p0=p0.snapshot(), t0=TGT(vec_of(p0.snapshot())))
-        na = vc.fork_values('n_adapt', [None, SInt(n_adapt)])
+        na = None if self.adapt == 'n_adapt-default' else SInt(n_adapt)
         s.n_adapt_given = na is not None
         kw = dict(n_adapt=na, target_prob=SReal(z3.Real('target_prob')), max_depth=SInt(max_depth), seed=SInt(SEED), max_retry_inits=SInt(retry))
         if self.mode == 'stepsize-given':
@@ -481,7 +484,7 @@ class Nuts(Contract):
         freal = lambda nm: (lambda why: SReal(cur().fresh(nm, R)))
         d = {2: Loop(inv=self._inv2,
                      modifies=lambda s, l: [l.samples, l.random_state],
-                     fresh={'n_total': freal('n_total')},
+                     fresh={'n_total': freal('n_total'), 'n_steps': freal('n_steps'), 'mh_ratio': freal('mh_ratio'), 'n_ok': freal('n_ok')},
                      at_head=lambda s, l: dict(k=l.it.index),
                      lemmas=lambda s, l0, l1: [SV(l0.h.k + 1) == row_vec(l1.samples, l0.h.k + 1)]),
              3: Loop(inv=self._inv3,
@@ -519,16 +522,68 @@ class Nuts(Contract):
 
     def witness(self, vc, model, ob):
         ev = lambda t: str(model.eval(t, model_completion=True))
-        return dict(function='nuts', mode=self.mode, d=ev(DIM), n_iter=ev(z3.Int('n_iter')), n_adapt=ev(z3.Int('n_adapt')) if 'n_adapt' in str(ob.pc) else None,
+        return dict(function='nuts', mode=self.mode, d=ev(DIM), n_iter=ev(z3.Int('n_iter')), n_adapt=ev(z3.Int('n_adapt')) if self.adapt == 'n_adapt-given' else None,
                     max_depth=ev(z3.Int('max_depth')), obligation=ob.kind)
 
 
-CONTRACTS = [Metropolis(), BuildTree(), Nuts('stepsize-given'), Nuts('stepsize-search')]
+CONTRACTS = [Metropolis(), BuildTree()] + [Nuts(m, a) for m in ('stepsize-given', 'stepsize-search') for a in ('n_adapt-default', 'n_adapt-given')]
 
-TRUSTED_BASE = []
-ASSUMPTIONS = []
-NOT_PROVED = []
+TRUSTED_BASE = ['pyvc engine: proxies, loop cutting, modular (recursive) calls through Stub, spec tables',
+                'pyvc/extreal.py: IEEE tag semantics of + - * < <= == exp isinf isnan isfinite min on {finite, +inf, -inf, nan} (tables compared with numpy each run)',
+                'numpy RandomState(seed): the p-th call returns a value determined by the seed and the calls before it; rand() in [0, 1); exponential() >= 0; '
+                'randn(n) has shape (n,) (sanity-tested each run)',
+                'numpy arrays: np.empty / basic slicing / row assignment / elementwise + * / np.inner on 1-D vectors (pyvc.sarray, pyvc.npspec)',
+                'z3 / cvc5 array theory with lambda terms (vectors are arrays Int -> Real normalised outside [0, d))']
+ASSUMPTIONS = ['A-REAL: floats are mathematical reals except for the inf/nan TAGS of log-target values: finite - finite is finite, exp(finite) is finite and > 0 '
+               '(no overflow / underflow), parameter vectors, momenta and gradients have finite real coordinates',
+               'the log-target and its gradient are pure functions of the vector they are given (uninterpreted Vec -> ExtReal / Vec -> Vec); target returns a scalar',
+               '"accepted precisely when a uniform draw is below the target ratio": a tie u = ratio counts as below (accepted iff not ratio < u); ties have probability 0',
+               'valid start: log-target of params0 is not nan (a nan start is accepted by both samplers: np.isinf(nan) is False)',
+               'params0 and sigma_proposals are 1-D arrays of the same length d >= 0; n_samples >= 0, warmup >= 0, n_iter >= 0, n_adapt >= 0, max_depth >= 0, max_retry_inits >= 1',
+               'A-LOG: logging calls have no effect.  Natively the dropped logging statement of metropolis divides by n_samples + warmup '
+               '(ZeroDivisionError for the degenerate request n_samples = warmup = 0): excluded by `requires n_samples + warmup >= 1`',
+               'nuts with stepsize=None: the documented other exits of the initial step-size search are allowed by the contract '
+               '(ValueError after max_retry_inits trials that all left the support; SystemExit for a step size of 0 or > 1e7)',
+               'termination of the step-size search loops and of the recursion is not proved beyond "depth decreases and stays >= 0"',
+               'A-INT: integers are mathematical']
+NOT_PROVED = ["on standard targets reproduce the target's moments",
+              'NUTS "implements its algorithm" beyond support safety (bounded only: state-by-state comparison with an independently written Algorithm 6 on the same stream)']
 
 
 def sanity():
-    return extreal.sanity()
+    import numpy as np
+    out = list(extreal.sanity())
+    a, b = np.random.RandomState(77), np.random.RandomState(77)
+    np.random.seed(1)
+    sa = [a.randn(3), a.rand(), a.exponential(), a.randn(3), a.rand()]
+    np.random.rand(5)
+    sb = [b.randn(3), b.rand(), b.exponential(), b.randn(3), b.rand()]
+    out.append(('RandomState(seed): same call sequence -> same values, independent of the global generator', all(np.array_equal(x, y) for x, y in zip(sa, sb))))
+    r = np.random.RandomState(3)
+    u, e = r.rand(20000), r.exponential(size=20000)
+    out.append(('rand() in [0, 1), exponential() >= 0', bool((u >= 0).all() and (u < 1).all() and (e >= 0).all())))
+    out.append(('randn(*shape) has that shape', np.random.RandomState(0).randn(*np.zeros(4).shape).shape == (4,)))
+    out.append(('python min(1., nan) = 1. and float(np.bool_) is 0/1', min(1., float('nan')) == 1. and float(np.float64(1.) <= np.float64(2.)) == 1.0))
+    return out
+
+
+def bounded(tier, seed):
+    from bounded import c09 as b
+    return b.run_all(tier, seed)
+
+
+_replay_cache = {}
+
+
+def replay_refuted(cname, rf):
+    """a refuted obligation: look for a failing native input of the executable property on the real functions"""
+    from bounded import c09 as b
+    fn = 'metropolis' if cname.startswith('metropolis') else 'nuts'
+    if fn not in _replay_cache:
+        _replay_cache[fn] = b.search_failure(fn)
+    return _replay_cache[fn]
+
+
+def replay_input(inp):
+    from bounded import c09 as b
+    return b.replay_input(inp)
